@@ -38,6 +38,13 @@ def run(ctx, rep):
     nl = totality.check_termination(ctx, rep, E, ec)
     nr = totality.check_recursion(ctx, rep, E)
     totality.check_cache_shape(ctx, rep, E)
+    # EST-CAPACITY_NONNEG: the grammar functions assume an accepted atom has capacity >= 0 (a negative capacity later
+    # raises ValueError / AttributeError): every non-None result of process_atom_symbol entails it on its own path --
+    # for cache hits too -- and what the symbol cache holds does not depend on the table   (C01/V7, C02/T8 shared)
+    from rules.C01 import check_atom_postcondition
+    from rules.shared import check_history_independence
+    check_atom_postcondition(ctx, rep, "EST")
+    check_history_independence(ctx, rep, "EST")
     # NW: constraint state untouched
     eff = Effects(ctx)
     setter, table_vars = eff.table_vars()
